@@ -86,6 +86,8 @@ type Settings struct {
 	StackMarshal                                         int
 	GlobalLevel                                          zerolog.Level
 	Now                                                  time.Time
+	CallerFieldName                                      string
+	CallerText                                           string // "" = zerolog's default CallerMarshalFunc (Caller ops are then not generated); else a CallerMarshalFunc returning this text
 }
 
 func DefaultSettings() Settings {
@@ -94,14 +96,16 @@ func DefaultSettings() Settings {
 		ErrorFieldName: "error", ErrorStackFieldName: "stack",
 		TimeFieldFormat: time.RFC3339, DurationFieldUnit: time.Millisecond,
 		FloatingPointPrecision: -1, GlobalLevel: zerolog.TraceLevel,
-		Now: time.Unix(1700000000, 123456789).UTC(),
+		Now:             time.Unix(1700000000, 123456789).UTC(),
+		CallerFieldName: "caller",
 	}
 }
 
 func (s Settings) String() string {
 	return fmt.Sprintf("{lvl=%q msg=%q ts=%q err=%q stack=%q tf=%q du=%d di=%v fpp=%d em=%d sm=%d gl=%d}",
 		s.LevelFieldName, s.MessageFieldName, s.TimestampFieldName, s.ErrorFieldName, s.ErrorStackFieldName,
-		s.TimeFieldFormat, int64(s.DurationFieldUnit), s.DurationFieldInteger, s.FloatingPointPrecision, s.ErrMarshal, s.StackMarshal, s.GlobalLevel)
+		s.TimeFieldFormat, int64(s.DurationFieldUnit), s.DurationFieldInteger, s.FloatingPointPrecision, s.ErrMarshal, s.StackMarshal, s.GlobalLevel) +
+		fmt.Sprintf("{caller=%q callerText=%q}", s.CallerFieldName, s.CallerText)
 }
 
 // ---- error marshal variants -------------------------------------------------------------------
@@ -152,6 +156,14 @@ func errMarshalFunc(v int) func(error) interface{} {
 			}
 			return constOtherErr
 		}
+	case 6:
+		// neither error, string nor object marshaler: rendered like Interface()
+		return func(err error) interface{} {
+			if err == nil {
+				return nil
+			}
+			return map[string]int{"len": len(err.Error())}
+		}
 	}
 	return func(err error) interface{} { return err }
 }
@@ -193,9 +205,19 @@ func (s *Settings) Apply() (restore func()) {
 		sm               func(error) interface{}
 		ts               func() time.Time
 		gl               zerolog.Level
+		cf               string
+		cm               func(uintptr, string, int) string
 	}{zerolog.LevelFieldName, zerolog.MessageFieldName, zerolog.TimestampFieldName, zerolog.ErrorFieldName,
 		zerolog.ErrorStackFieldName, zerolog.TimeFieldFormat, zerolog.DurationFieldUnit, zerolog.DurationFieldInteger,
-		zerolog.FloatingPointPrecision, zerolog.ErrorMarshalFunc, zerolog.ErrorStackMarshaler, zerolog.TimestampFunc, zerolog.GlobalLevel()}
+		zerolog.FloatingPointPrecision, zerolog.ErrorMarshalFunc, zerolog.ErrorStackMarshaler, zerolog.TimestampFunc, zerolog.GlobalLevel(),
+		zerolog.CallerFieldName, zerolog.CallerMarshalFunc}
+	if s.CallerFieldName != "" || s.CallerText != "" {
+		zerolog.CallerFieldName = s.CallerFieldName
+	}
+	if s.CallerText != "" {
+		txt := s.CallerText
+		zerolog.CallerMarshalFunc = func(uintptr, string, int) string { return txt }
+	}
 	zerolog.LevelFieldName = s.LevelFieldName
 	zerolog.MessageFieldName = s.MessageFieldName
 	zerolog.TimestampFieldName = s.TimestampFieldName
@@ -216,6 +238,7 @@ func (s *Settings) Apply() (restore func()) {
 		zerolog.DurationFieldUnit, zerolog.DurationFieldInteger, zerolog.FloatingPointPrecision = o.g, o.h, o.i
 		zerolog.ErrorMarshalFunc, zerolog.ErrorStackMarshaler, zerolog.TimestampFunc = o.em, o.sm, o.ts
 		zerolog.SetGlobalLevel(o.gl)
+		zerolog.CallerFieldName, zerolog.CallerMarshalFunc = o.cf, o.cm
 	}
 }
 
@@ -237,6 +260,8 @@ func (s *Settings) errIntent(err error) (in *Intent, present bool) {
 			return Null(), false
 		case 5:
 			return Str(constOtherErr.Error()), true
+		case 6:
+			return &Intent{K: IIface, V: map[string]int{"len": len("<typed-nil>")}}, true
 		}
 	}
 	if isNil {
@@ -258,6 +283,8 @@ func (s *Settings) errIntent(err error) (in *Intent, present bool) {
 		return Null(), false
 	case 5:
 		return Str(constOtherErr.Error()), true
+	case 6:
+		return &Intent{K: IIface, V: map[string]int{"len": len(err.Error())}}, true
 	}
 	panic("bad ErrMarshal")
 }
